@@ -6,7 +6,7 @@ package aqua
 // peer sends one message - well-formed, empty, truncated, byte-flipped, malformed RLP, oversized, unknown code, or
 // well-formed with hostile parameters (2^64-1 headers, 100 000 hashes) - followed by a harmless sentinel request.
 // The message pipe is synchronous, so "the sentinel was consumed" means the hostile message was handled and the peer
-// kept, and "handle returned" means the peer was dropped; no verdict depends on a timeout (a 30 s watchdog reports a
+// kept, and "handle returned" means the peer was dropped; no verdict depends on a timeout (a 10 min watchdog reports a
 // wedge).  Replies are drained and measured.  ProtoTrace.tla judges.
 
 import (
@@ -141,7 +141,7 @@ func runProtoCase(pm *ProtocolManager, c protoCase, idx int, emit func(interface
 		}
 	case <-sent:
 		outcome = "kept"
-	case <-time.After(30 * time.Second):
+	case <-time.After(10 * time.Minute):
 		outcome = "wedge"
 	}
 	el := time.Since(start)
